@@ -60,5 +60,5 @@ Theorem C01_fits :
     Rect w h R -> clean t -> col t = lm -> sgr t = adefault ->
     0 <= lm -> lm + w <= W -> top <= row t -> row t + h <= top + H ->
     exists evs, log (exec lm t R) = log t ++ evs /\ fits_noscroll W H top evs = true.
-Proof. exact rect_fits. Qed.
+Proof. exact (rect_fits all_cells). Qed.
 Print Assumptions C01_fits.
